@@ -206,7 +206,7 @@ Section Proofs.
       cntmid l i (mkthr V (PSlot v k) pr g) (setpc V (mkthr V (PSlot v k) pr g) (PDec false)) Hi. simpl in Hcm.
       constructor; simpl; rewrite ?updn_upd; try lia; auto.
       + rewrite <- updn_upd. apply allT_updn; auto. unfold special; simpl. intros [H|[H|H]]; try discriminate. apply k6t; auto.
-      + rewrite <- updn_upd. apply allT_updn; auto. simpl. discriminate.
+      + rewrite <- updn_upd. apply allT_updn; auto; try solve [ simpl; discriminate ].
     - (* PDec *)
       assert (Hpos : 1 <= cnt /\ (if fresh then Z.of_nat stt < c + eps else True)).
       { destruct fresh; simpl in *.
@@ -233,22 +233,22 @@ Section Proofs.
           assert (cnt = 0) by (apply k6t; auto). lia.
         * intros Hs. exfalso. eapply Hothers; eauto.
       + intros Hr. specialize (k7 Hr). lia.
-      + rewrite <- updn_upd. apply allT_updn; auto. subst t'.
+      + rewrite <- updn_upd. apply allT_updn; auto; try solve [ subst t' ].
         destruct (cnt =? 1); [destruct hd; simpl; discriminate|]. intros H. exfalso. revert H. apply next_facts.
     - (* PC0 *)
       cntmid l i (mkthr V PC0 pr g) (setpc V (mkthr V PC0 pr g) (match ns with O => PFill | S _ => PCol 0 end)) Hi.
       assert (Hm : isMid (setpc V (mkthr V PC0 pr g) (match ns with O => PFill | S _ => PCol 0 end)) = false) by (destruct ns; reflexivity).
       rewrite Hm in Hcm. simpl in Hcm.
       constructor; simpl; rewrite ?updn_upd; try lia; auto.
-      + rewrite <- updn_upd. apply allT_updn; auto. intros _. apply k6t. left. reflexivity.
-      + rewrite <- updn_upd. apply allT_updn; auto. destruct ns; simpl; discriminate.
+      + rewrite <- updn_upd. apply allT_updn; auto; try solve [ intros _; apply k6t; left; reflexivity ].
+      + rewrite <- updn_upd. apply allT_updn; auto; try solve [ destruct ns; simpl; discriminate ].
     - (* PCol *)
       cntmid l i (mkthr V (PCol k) pr g) (setpc V (mkthr V (PCol k) pr g) (if (S k <? ns)%nat then PCol (S k) else PFill)) Hi.
       assert (Hm : isMid (setpc V (mkthr V (PCol k) pr g) (if (S k <? ns)%nat then PCol (S k) else PFill)) = false) by (destruct (S k <? ns)%nat; reflexivity).
       rewrite Hm in Hcm. simpl in Hcm.
       constructor; simpl; rewrite ?updn_upd; try lia; auto.
-      + rewrite <- updn_upd. apply allT_updn; auto. intros _. apply k6t. left. reflexivity.
-      + rewrite <- updn_upd. apply allT_updn; auto. destruct (S k <? ns)%nat; simpl; discriminate.
+      + rewrite <- updn_upd. apply allT_updn; auto; try solve [ intros _; apply k6t; left; reflexivity ].
+      + rewrite <- updn_upd. apply allT_updn; auto; try solve [ destruct (S k <? ns)%nat; simpl; discriminate ].
     - (* PFill *)
       assert (H0 : cnt = 0) by (apply k6t; left; reflexivity).
       assert (Hm : nth_error (map (release V hd) l) i = Some (mkthr V PFill pr g)).
@@ -291,12 +291,12 @@ Section Proofs.
       constructor; simpl; rewrite ?updn_upd; try lia; auto.
       + rewrite <- updn_upd. apply allT_updn; auto. subst t'. destruct rdy; [intros _; auto|].
         unfold special; simpl. intros [H|[H|H]]; try discriminate. apply k6t; auto.
-      + rewrite <- updn_upd. apply allT_updn; auto. intros H; contradiction.
+      + rewrite <- updn_upd. apply allT_updn; auto; try solve [ intros H; contradiction ].
     - (* PCopy *)
       destruct (next_facts hd (mkthr V PCopy pr (g ++ [Some res]))) as (Hn1 & Hn2 & Hn3 & Hn4 & Hn5).
       cntmid l i (mkthr V PCopy pr g) (next V hd (mkthr V PCopy pr (g ++ [Some res]))) Hi. rewrite Hn1 in Hcm. simpl in Hcm.
       constructor; simpl; rewrite ?updn_upd; try lia; auto.
-      + rewrite <- updn_upd. apply allT_updn; auto. intros _. apply k6t. right. left. reflexivity.
-      + rewrite <- updn_upd. apply allT_updn; auto. intros H; contradiction.
+      + rewrite <- updn_upd. apply allT_updn; auto; try solve [ intros _; apply k6t; right; left; reflexivity ].
+      + rewrite <- updn_upd. apply allT_updn; auto; try solve [ intros H; contradiction ].
   Qed.
 End Proofs.
